@@ -1,66 +1,12 @@
-"""Per-property configuration of the check driver."""
+"""Per-property configuration of the check driver: loaded from tools/props/<id>.json
+({"config": {...}, "meta": {...}}), one file per property so that parallel work merges cleanly."""
+import glob, json, os
 
-COMMON_TB = [
-    "harness VM (vvm, fork of /repo/test_vm) stands in for ref-fvm: message/rollback semantics, mocked proofs and signatures",
-    "IPLD containers (HAMT/AMT/bitfield), CBOR, num-bigint are modelled as ideal maps/integers, exercised for real only by the correspondence runs",
-    "rustc/cargo, python translators, canonicalisation and diff code of the harness",
-]
-
-CHAIN_TB = COMMON_TB + [
-    "chain run: miners are created by plain CreateMiner messages; sector proofs, PoSt proofs and consensus-fault evidence are mocked by the harness VM; the cron tick is run at every epoch that has queued power-actor work (every epoch in 'dense' sequences) — a tick on an epoch without queued work only updates reward/power smoothing estimates",
-    "fee, pledge and deposit *amounts* (monies.rs, smoothing estimates) are inputs of the ledger model, taken from the real run; the model decides what the ledgers do with them",
-]
-
-PROPS = {
-    "C01": {
-        "lean_targets": ["BA.Props.C01"],
-        "harness": "c01",
-        "translators": ["extract_constants.py"],
-        "trusted_base": CHAIN_TB + [
-            "the VM model (BA.VM) quantifies over every call tree; its tie is the replay of every real invocation tree of the run against the real post-message balances",
-        ],
-        "assumptions": [
-            "market solvency is monitored on the real state here; its theorem lives in the market model (C06)",
-            "EXPECTED_LEADERS_PER_EPOCH = 5 in the reward model",
-        ],
-        "timeout": 3600,
-    },
-    "C03": {
-        "lean_targets": ["BA.Props.C03"],
-        "harness": "c03",
-        "translators": ["extract_constants.py"],
-        "trusted_base": CHAIN_TB + [
-            "the vesting table is abstracted to its total in the ledger model (how much has vested at an epoch is an input); the table itself is C14's model",
-            "ledger model covers create / fund / pre-commit / prove-commit / apply-rewards / withdraw / repay-debt / proving-deadline callback; other operations (terminations, faults, extensions, consensus faults) re-synchronise the model from the real state and are covered by the oracle only",
-        ],
-        "assumptions": [
-            "finding F1 (creation deposit never added to the network pledge total) is a known finding: network_pledge_eq is proved in the form total = Σ(ip+lf) − unaccounted creation deposits, with proved witnesses that the stated equality and the 'never blocks an operation' clause fail on the unchanged code",
-        ],
-        "timeout": 3600,
-    },
-    "C05": {
-        "lean_targets": ["BA.Props.C05"],
-        "harness": "c05",
-        "translators": ["extract_constants.py"],
-        "trusted_base": CHAIN_TB + [
-            "scheduling model (BA.Cron): deadline arithmetic, activation and callback re-enrolment; every real activation and callback of the run is recomputed by the model and compared",
-            "'every callback succeeds' is proved for the funds/scheduling logic the models cover; failures that could only come from IPLD containers or (de)serialisation are covered by the exploration only",
-        ],
-        "assumptions": [
-            "findings F1 (cron callback fails when the pledge total underflows, the miner then loses its claim) and F3 (no proving-deadline callback between creation and the first pre-commit; the recorded deadline is stale until the proving-period start is next refreshed) are known findings of the unchanged tree",
-        ],
-        "timeout": 3600,
-    },
-    "C16": {
-        "lean_targets": ["BA.Props.C16"],
-        "harness": "c16",
-        "translators": ["extract_constants.py"],
-        "trusted_base": COMMON_TB + [
-            "signature authentication, address resolution, blake2b pre-image check and the voucher's `extra` call are environment inputs of the model (booleans); the harness derives them from how it built each voucher",
-        ],
-        "assumptions": [
-            "chain epochs are non-negative (collect_after_delay)",
-            "a voucher naming the same merge lane twice subtracts that lane once per list entry (code and model agree; exhibited as an example, recorded in notes)",
-        ],
-    },
-}
+_DIR = os.path.join(os.path.dirname(os.path.abspath(__file__)), "props")
+PROPS = {}
+META = {}
+for _f in sorted(glob.glob(os.path.join(_DIR, "C*.json"))):
+    _d = json.load(open(_f))
+    _id = os.path.basename(_f)[:-5]
+    PROPS[_id] = _d["config"]
+    META[_id] = _d["meta"]
